@@ -90,7 +90,7 @@ class C11(Check):
                    "compared as sorted lists",
                    "UDQState::defines and WTestWell::wtest_report_step have no direct getter: seen through operator==, the member-list "
                    "dump and (report step) the continuation test_wells() calls on a copy"]
-    EXAMPLES = {"quick": 50, "thorough": 1000}
+    EXAMPLES = {"quick": 300, "thorough": 5000}
     MIN_EVALS = {"quick": 500, "thorough": 8000}
     TIME_CAP = {"quick": 200, "thorough": 1500}
     LEVEL_TEXT = ("Generated-input search with a round-trip oracle on three generations (x, y = unpack(pack(x)), z = unpack(pack(y))): "
